@@ -31,18 +31,33 @@ def real_compiled(tbl, um: ser.UidMap):
     if not issubclass(backend, SqlImpl):
         return None
     final_select = Cache.from_ast(nd).selected_cols()
-    # the select lists handed to compile_query while the AST is compiled (the operands of the unions)
-    log = []
+    # the select lists of the two operands of every union, in the order the unions are built: compile_query is
+    # wrapped to remember the select list of the statement it returns, sqlalchemy.union / union_all to log them
+    import sqlalchemy as _sqa
+    log, made, keep = [], {}, []
     orig = backend.__dict__.get("compile_query") or SqlImpl.__dict__["compile_query"]
 
     def logged(cls, table, query, sqa_expr):
-        log.append(list(query.select))
-        return orig.__func__(cls, table, query, sqa_expr)
+        sel = orig.__func__(cls, table, query, sqa_expr)
+        made[id(sel)] = list(query.select)
+        keep.append(sel)
+        return sel
     had_own = "compile_query" in backend.__dict__
     backend.compile_query = classmethod(logged)
+    o_union, o_union_all = _sqa.union, _sqa.union_all
+
+    def w_union(*sels, **kw):
+        log.extend(made.get(id(x), []) for x in sels)
+        return o_union(*sels, **kw)
+
+    def w_union_all(*sels, **kw):
+        log.extend(made.get(id(x), []) for x in sels)
+        return o_union_all(*sels, **kw)
+    _sqa.union, _sqa.union_all = w_union, w_union_all
     try:
         _, q, sqa_expr = backend.compile_ast(nd, {col._uuid: 1 for col in final_select})
     finally:
+        _sqa.union, _sqa.union_all = o_union, o_union_all
         if had_own:
             backend.compile_query = orig
         else:
